@@ -246,6 +246,11 @@ def gen_beast_frame(rng, p_hot):
     for i in range(6):
         if rng.random() < p_hot:
             ts[i] = 0x1A
+    r = rng.random()
+    if r < 0.03:
+        ts = bytearray(bytes.fromhex("FF004D4C4154"))   # the synthetic "MLAT" time stamp mlat-client/dump1090 loop back
+    elif r < 0.05:
+        ts = bytearray(rng.choice([b"\x00" * 6, b"\xff" * 6]))
     sig = 0x1A if rng.random() < max(p_hot, 0.1) else rng.randrange(256)
     if rng.random() < 0.04:
         sig = 0
